@@ -1177,7 +1177,10 @@ def check_one(ctx, case, res):
 
 
 def run(ctx):
-    ctx.build_with_translator(FILES)
+    from . import c12l
+    # C12L: the flux part of the PSF fit as exact linear least squares (re-uses C20H's generic theory): recovery of
+    # rendered scenes, scaling by k, singly-vs-grouped, row i carries source i's solution component
+    ctx.build_with_translator(FILES, extra_files=c12l.COQ_FILES, extra_obligation_files=c12l.OBLIGATION_FILES)
     quick = ctx.tier == 'quick'
     ctx.cov['rule'] = (
         'script mode: random small images (4..13 px), fit shapes 1..7, 1..8 sources at interior / edge-straddling / '
@@ -1320,6 +1323,8 @@ def run(ctx):
                               found_input=False)
     iterative_support(ctx, quick)
     grouper_direct(ctx, quick)
+    # real PSFPhotometry with fixed positions against the exact least-squares model (own PRNG)
+    c12l.run_flux_correspondence(ctx, 60 if ctx.tier == 'quick' else 600)
 
 
 def oracle_metrics(case, res):
@@ -1673,6 +1678,9 @@ def grouper_direct(ctx, quick):
 
 def replay(obj):
     r = obj['replay']
+    if isinstance(r, dict) and r.get('mode') in ('flux', 'free'):
+        from . import c12l
+        return c12l.replay(obj)
     if 'grouper' in r:
         from photutils.psf import SourceGrouper
         g = r['grouper']
